@@ -240,7 +240,7 @@ func EncLeaves() []reflect.Type {
 		reflect.TypeOf(Plain{}), reflect.TypeOf(RecP{}), reflect.TypeOf(MW{}),
 		reflect.TypeOf(EmbPtr{}), reflect.TypeOf(EmbCase{}), reflect.TypeOf(EmbCaseV{}),
 		reflect.TypeOf(ShBundle{}), reflect.TypeOf(ShAmbUse{}),
-		reflect.TypeOf(SelfEmb{}), reflect.TypeOf(MutA{}),
+		reflect.TypeOf(SelfEmb{}), reflect.TypeOf(MutA{}), reflect.TypeOf(EmbRec{}),
 	}
 }
 
